@@ -304,13 +304,13 @@ def all_reads(prog) -> List[Read]:
 
 def check(run, prog):
     reads = all_reads(prog)
-    run.require(len(reads) >= 35, f"only {len(reads)} token-text reads found in rules/ and context.py (floor 35)")
+    run.require(len(reads) >= 32, f"only {len(reads)} token-text reads found in rules/ and context.py (floor 32)")
 
     run.rule("R-17.1", "every read of a token's text in rules/ and context.py whose token may be a comment / string / "
              "character constant (kinds from check_token / .type guards valid on every CFG path, the slot, or the "
              "re-validated precondition table) has only the roles WIDTH, MESSAGE, TRUTH or an inert comparison (literal / "
              "prefix that no comment, string or character text can match); exceptions the property itself makes: HEADER in "
-             "CheckHeader, PATH on the STRING argument of #include", floor=35)
+             "CheckHeader, PATH on the STRING argument of #include", floor=32)
     for r in reads:
         if r.kind_source == "dead":
             run.note(f"{r.key}: dead code, skipped")
